@@ -148,13 +148,16 @@ def case_values(ds, k, fields, t, l, s, opts=None, own_obs=True):
             if raw_value(inp, inp["cells"].get(key), ("fcst",)) is None:
                 return None
         climv = raw_value(ds["clim"], ds["clim"]["cells"].get(key), ("fcst",))
-    for f in fields:
+    for f0 in fields:
+        f = f0
+        # -obs / -fcst field overrides: the named field plays the role of the observation / forecast
+        if f0[0] == "obs" and opts.get("obs_field") is not None:
+            f = tuple(opts["obs_field"])
+        if f0[0] == "fcst" and opts.get("fcst_field") is not None:
+            f = tuple(opts["fcst_field"])
         if f[0] == "obs":
             v = obs_value(ds, t, l, s)
             if v is None:
-                return None
-            rng = opts.get("obsrange")
-            if rng is not None and (v < rng[0] or v > rng[1]):
                 return None
         else:
             v = None
@@ -164,7 +167,11 @@ def case_values(ds, k, fields, t, l, s, opts=None, own_obs=True):
                     return None
                 if j == k:
                     v = vj
-        if climv is not None and f[0] in ("obs", "fcst"):
+        if f0[0] == "obs":
+            rng = opts.get("obsrange")
+            if rng is not None and (v < rng[0] or v > rng[1]):
+                return None
+        if climv is not None and f0[0] in ("obs", "fcst"):
             if opts.get("clim_type", "subtract") == "subtract":
                 v = v - climv
             else:
